@@ -1,9 +1,11 @@
 import Driver.Ops
+import Driver.Builtins
 open Driver
 
 def dispatch (line : String) : String :=
   match line.splitOn "\t" with
   | "ops" :: args => handleOps args
+  | "bi" :: args => handleBuiltins args
   | _ => "bad-op"
 
 partial def loop (h : IO.FS.Stream) (out : IO.FS.Stream) : IO Unit := do
